@@ -117,7 +117,7 @@ func makeResidents(c *Ctx, dir string) error {
 		{"failed", "localhost", plan{Steps: []string{"w10", "x3"}}, false, 3},
 		{"canceled", "localhost", plan{Steps: []string{"w10", "s200", emitHang}}, true, 4},
 	}
-	if waitPing(a.Sock, b.ID, 20*time.Second) {
+	if waitPing(a.Sock, b.ID, 60*time.Second) {
 		wants = append(wants, want{"remote-canceled", b.ID, plan{Steps: []string{"w10", "s200", emitHang}}, true, 4})
 	}
 	var mu sync.Mutex
@@ -211,7 +211,7 @@ func lookAtResidents(sock string, obs []residentObs, withResults bool) {
 			if !withResults {
 				return
 			}
-			got, ended, err := WorkResults(sock, r.Unit, 0, 6*time.Second)
+			got, ended, err := WorkResults(sock, r.Unit, 0, 20*time.Second)
 			switch {
 			case err != nil:
 				o.Results = append(o.Results, "error:"+err.Error())
@@ -245,7 +245,7 @@ func judgeResidents(sh *shared, o *observation) {
 			when := fmt.Sprintf("after start %d of %d", k+1, len(r.Views))
 			where := fmt.Sprintf("[resident %s unit %s, scenario %s, crash at %s]", r.Name, r.Unit, o.Scenario, o.Crash.String())
 			switch {
-			case strings.HasPrefix(v.Err, "work list") || v.Latency > 5:
+			case strings.HasPrefix(v.Err, "work list") || v.Latency > 20:
 				im.Violate(fmt.Sprintf("a status query %s took %.1f s (%s) %s", when, v.Latency, v.Err, where), "query-blocked:resident-"+r.Name, o)
 			case !v.Listed:
 				im.Violate(fmt.Sprintf("finished unit is not listed %s (%s) %s", when, v.Err, where), "resident-not-listed:"+r.Name, o)
